@@ -518,7 +518,7 @@ def phase_stream(rng, pid, tail=None):
     cases = []
     i = 0
     progs = [[["next", "next"], ["next", "next"]], [["next", "hasmore"], ["chunk 2 all", "next"]], [["next", "next"], ["bufnew 2", "bufnext all"]]]
-    for hint in ("inexact", "unbounded", "exact", "upper", "inverted"):
+    for hint in ("inexact", "unbounded", "exact", "upper", "inverted", "maxnone"):
         for pr in progs:
             for a in range(3, 11):
                 for b in range(3, 10):
@@ -960,6 +960,10 @@ def stream_for(pid, tier, seed):
     for c in cases:
         if c.has_op("skip") and not c.id.startswith("D") and r2.random() < 0.34:
             c.rawskip = True
+        # every fifth plain case builds its iterator with the `From` conversion
+        if c.kind in ("slice", "vec", "array", "range", "iter") and c.adapt == "none" and not (c.zst or c.pod or c.fat or c.nested or c.zstiter) and \
+                not c.id.startswith("D") and r2.random() < 0.2:
+            c.viafrom = True
         # every fourth case over an owning wrapped iterator uses a zero-sized iterator *type*
         if c.kind == "iter" and c.adapt == "none" and not c.zst and not c.pod and not c.id.startswith("D") and r2.random() < 0.25:
             c.zstiter = True
